@@ -73,6 +73,7 @@ enum
     CL_FAILED_FRAME_CALL,
     CL_FINE,
     CL_SET_ALLOC_FAIL,
+    CL_STRADDLE,
 };
 
 const VhSpec kSpec = {
@@ -84,7 +85,7 @@ const VhSpec kSpec = {
     { "camera_random", "camera_sin", "camera_empty", "binning_gt1", "binning_rejected", "multibyte_type_odd_width", "shape_clamped",
       "frame_delivered", "two_configurations", "two_runs", "trigger_mode", "stop_while_frame_call_blocked", "triggers_interleaved_with_frames",
       "lockstep_trigger_frame", "frame_call_after_stop", "gap_in_hardware_ids", "pct_schedule", "preemptions", "f32", "failed_frame_call_then_restart", "edge_preemptions",
-      "set_refused_by_allocation_failure_then_retried", nullptr },
+      "set_refused_by_allocation_failure_then_retried", "frame_call_pending_across_restart", nullptr },
     { "C17 non-trivial: >=1 frame fetched AND (binning > 1 or a multi-byte type with an odd width), or >=2 accepted configurations on one camera",
       "C18 non-trivial: >=2 runs on one camera, or a stop issued while a frame call was blocked, or >=3 triggers interleaved with frame calls",
       nullptr },
@@ -382,6 +383,7 @@ do_frame(Ctx& x, char who)
     const uint64_t SENT = 0xfeedfacecafebeefull;
     info.hardware_frame_id = SENT;
     size_t run_idx = x.runs.empty() ? 0 : x.runs.size() - 1;
+    size_t runs_at_call = x.runs.size();
     bool was_running = x.running;
     if (who == 'A')
         x.a_blocked_in_frame = true;
@@ -412,8 +414,12 @@ do_frame(Ctx& x, char who)
             if (tail_untouched)
                 x.c.fail("C17", "frame-underfilled", "tail", "the last 8 of %zu image bytes were not written by the frame call", nb);
         }
-        // C18
-        if (!x.c.ended && !x.runs.empty()) {
+        // C18 (per-run oracles only when the call lies within one run: a call that was pending across a stop
+        // and a restart may return a frame of either run, depending on when the caller is scheduled again)
+        bool straddles = x.runs.size() != runs_at_call || (run_idx < x.runs.size() && x.runs[run_idx].stopped && x.runs.size() - 1 != run_idx);
+        if (straddles)
+            x.c.cls(CL_STRADDLE);
+        if (!x.c.ended && !x.runs.empty() && !straddles) {
             Run& run = x.runs[run_idx];
             int64_t id = (int64_t)info.hardware_frame_id;
             if (id <= run.last_id)
